@@ -402,7 +402,7 @@ func c15r4(c *Ctx, id string) {
 				continue
 			}
 			allInstrs(fn, func(in ssa.Instruction) {
-				if _, isP := in.(*ssa.Panic); !isP {
+				if !isPanicLike(in) {
 					return
 				}
 				gs := guardsOf(in.Block())
@@ -528,25 +528,69 @@ func c15r8(c *Ctx, id string) {
 	os := w.Method("stream", "stream", "openStream")
 	c.need(os != nil, id, "stream.openStream")
 	c.see(os)
+	isLookupFlag := func(v ssa.Value) bool {
+		ex, isEx := v.(*ssa.Extract)
+		if !isEx || ex.Index != 1 {
+			return false
+		}
+		call, isCall := ex.Tuple.(*ssa.Call)
+		if !isCall {
+			return false
+		}
+		m, recv := csmapMethod(call.Common())
+		return m == "Load" && w.isOffsetMap(recv.Type())
+	}
+	// the lookup may sit in a helper that returns (position, error): its error is non-nil exactly when the lookup missed
+	isLookupErr := func(v ssa.Value) bool {
+		ex, isEx := unwrap(v).(*ssa.Extract)
+		if !isEx {
+			return false
+		}
+		call, isCall := ex.Tuple.(*ssa.Call)
+		if !isCall || call.Common().IsInvoke() {
+			return false
+		}
+		h := call.Common().StaticCallee()
+		if h == nil || h.Blocks == nil || !w.inModule(h) {
+			return false
+		}
+		res := h.Signature.Results()
+		if res.Len() < 2 || ex.Index != res.Len()-1 || !types.Identical(res.At(ex.Index).Type(), types.Universe.Lookup("error").Type()) {
+			return false
+		}
+		okAll, nFail, nOK := true, 0, 0
+		allInstrs(h, func(in ssa.Instruction) {
+			r, isR := in.(*ssa.Return)
+			if !isR || len(r.Results) != res.Len() {
+				return
+			}
+			if isNilConst(r.Results[len(r.Results)-1]) {
+				nOK++
+				if !guardedBy(in.Block(), true, isLookupFlag) {
+					okAll = false
+				}
+			} else {
+				nFail++
+				if !guardedBy(in.Block(), false, isLookupFlag) {
+					okAll = false
+				}
+			}
+		})
+		return okAll && nFail > 0 && nOK > 0
+	}
+	missingAt := func(b *ssa.BasicBlock) bool {
+		return guardedBy(b, false, isLookupFlag) || errGuard(b, false, isLookupErr)
+	}
+	foundAt := func(b *ssa.BasicBlock) bool {
+		return guardedBy(b, true, isLookupFlag) || errGuard(b, true, isLookupErr)
+	}
 	n := 0
 	allInstrs(os, func(in ssa.Instruction) {
 		r, ok := in.(*ssa.Return)
 		if !ok || len(r.Results) != 1 {
 			return
 		}
-		missing := guardedBy(in.Block(), false, func(v ssa.Value) bool {
-			ex, isEx := v.(*ssa.Extract)
-			if !isEx || ex.Index != 1 {
-				return false
-			}
-			call, isCall := ex.Tuple.(*ssa.Call)
-			if !isCall {
-				return false
-			}
-			m, recv := csmapMethod(call.Common())
-			return m == "Load" && w.isOffsetMap(recv.Type())
-		})
-		if !missing {
+		if !missingAt(in.Block()) {
 			return
 		}
 		n++
@@ -562,18 +606,6 @@ func c15r8(c *Ctx, id string) {
 		if cc == nil || !isInvokeOf(cc, "Client", "OpenStream") {
 			return
 		}
-		found := guardedBy(in.Block(), true, func(v ssa.Value) bool {
-			ex, isEx := v.(*ssa.Extract)
-			if !isEx || ex.Index != 1 {
-				return false
-			}
-			call, isCall := ex.Tuple.(*ssa.Call)
-			if !isCall {
-				return false
-			}
-			m, recv := csmapMethod(call.Common())
-			return m == "Load" && w.isOffsetMap(recv.Type())
-		})
-		c.Check(found, id, "request-with-position@"+fname(os), in.Pos(), "Client.OpenStream is called only when the position lookup succeeded", "Client.OpenStream is called on a path where the position lookup did not succeed")
+		c.Check(foundAt(in.Block()), id, "request-with-position@"+fname(os), in.Pos(), "Client.OpenStream is called only when the position lookup succeeded", "Client.OpenStream is called on a path where the position lookup did not succeed")
 	})
 }
